@@ -235,6 +235,13 @@ def simp_bits(know, bits):
             leaf, k = b[0], b[1]
             ng = 1 if len(b) == 3 else 0
             al = know.leaf_allowed(leaf) if know is not None else None
+            if al is None and know is not None:
+                try:
+                    lo_, hi_ = know.leaf_range(leaf)
+                    if hi_ - lo_ <= 4096:
+                        al = range(lo_, hi_ + 1)
+                except Exception:
+                    al = None
             if al is not None and len(al) <= 4096:
                 vals = set(((v >> k) & 1) ^ ng for v in al)
                 if len(vals) == 1:
@@ -265,6 +272,23 @@ def _full_opq_leaf(bits):
     return leaf, k
 
 
+def _low_bits_of_leaf(bits):
+    """bits = the low k bits, in order, of one input / length leaf, zero-extended -> (leaf, k)."""
+    b0 = bits[0]
+    if not (isinstance(b0, tuple) and len(b0) == 2 and b0[1] == 0 and b0[0][0] in ('in', 'len')):
+        return None
+    leaf = b0[0]
+    k = 0
+    for i, b in enumerate(bits):
+        if isinstance(b, tuple) and len(b) == 2 and b[0] == leaf and b[1] == i and k == i:
+            k += 1
+        elif b == 0 and k > 0:
+            continue
+        else:
+            return None
+    return leaf, k
+
+
 def simp(know, t):
     """Canonical form of a term under the path knowledge (pinned leaves become constants;
     a truncation whose operand provably fits is replaced by the operand)."""
@@ -285,6 +309,15 @@ def simp(know, t):
             if inner[0] == 'bv' and k >= inner[1]:
                 return mk_bv(t[1], tuple(inner[2]) + (0,) * (t[1] - inner[1])) if t[1] >= inner[1] else t
             return t
+        low = _low_bits_of_leaf(t[2])
+        if low is not None and know is not None:
+            leaf, k = low
+            try:
+                lo_, hi_ = know.leaf_range(leaf)
+                if lo_ >= 0 and hi_ < (1 << k):
+                    return simp(know, mk_lin(t[1], 0, {leaf: 1}))     # the low k bits of a value that fits in k bits
+            except Exception:
+                pass
         return mk_bv(t[1], simp_bits(know, t[2]))
     if t[0] == 'lin':
         c0 = t[2]
